@@ -44,9 +44,129 @@ def schedules(tier):
     return out
 
 
+DEEP_SESSION = """#include "axllib"
+import from SingleInteger, List SingleInteger
+depth(n: SingleInteger): SingleInteger == if n = 0 then 0 else 1 + depth(n - 1)
+mk(n: SingleInteger): List SingleInteger == if n = 0 then nil else cons(n, mk(n - 1))
+sum(l: List SingleInteger): SingleInteger == { s: SingleInteger := 0; for x in l repeat s := s + x; s }
+keep: List SingleInteger == mk 40
+print << "deep-a " << depth %(d)d << newline
+print << "sum-a " << sum mk %(d)d << newline
+print << "deep-b " << depth %(d2)d << newline
+print << "keep " << sum keep << newline
+print << "deep-c " << depth %(d)d << newline
+"""
+
+
+def gc_lines(text, ends, k, j):
+    """The session text with a collection request (`#int gc`) after the i-th step whenever i mod k = j."""
+    ls = text.split("\n")
+    out = []
+    step = 0
+    endset = set(ends)
+    for n, l in enumerate(ls, 1):
+        out.append(l)
+        if n in endset:
+            if step % k == j:
+                out.append("#int gc")
+            step += 1
+    return "\n".join(out)
+
+
+def loop_phase(chk, b, wd, tier):
+    """Interactive sessions (aldor -gloop) with collections requested between steps (`#int gc`): the session must print what
+    Repl.tla / AldorSem specify for it whatever the schedule, and the fixed deep-recursion session (interpreter stack in
+    several segments, live data across collections) must print the same with and without the requests."""
+    import random
+    import shutil
+    import json
+    import importlib
+    c13 = importlib.import_module("checks.c13")
+    import replhist
+    b = dict(b)
+    exe = os.path.join(wd, "aldor-loop")
+    shutil.copy2(b["aldor"], exe)
+    b["aldor"] = exe
+    prefix = c13._setarch()
+    rng = random.Random(chk.seed + 41)
+    nprog = 6 if tier == "quick" else 60
+    progs, batch_exp, _ = c13.select_programs(chk, (chk.seed + 41) % 1000003, [(nprog, 7, 0, 0, ())], rng)
+    d = vlib.scratch("c09loop")
+    path = os.path.join(d, "progs.ndjson")
+    vlib.write_ndjson(path, progs)
+    r = vlib.tlc("Repl", "Repl", workers=vlib.NCPU, env={"PROGS": path}, timeout=1500)
+    chk.add_tlc("Repl[gc-sessions]", r)
+    if r.violated:
+        raise vlib.MachineryError("Repl.tla violates %s on the session programs" % r.violated)
+    hs = [json.loads(l[5:]) for l in r.printed if isinstance(l, str) and l.startswith("HIST ")]
+    hs = [h for h in hs if all(it["k"] == "ok" for it in h["hist"])]
+    byid = {p["id"]: p for p in progs}
+    if len(hs) < len(progs):
+        raise vlib.MachineryError("Repl.tla exported %d plain histories for %d programs" % (len(hs), len(progs)))
+    scheds = [None, (1, 0), (2, 1), (3, 0)] if tier == "quick" else [None, (1, 0), (2, 0), (2, 1), (3, 0), (3, 2), (5, 4)]
+    jobs = []
+    for h in hs:
+        p = byid[h["id"]]
+        text, steps, ends = replhist.render_history(p, h["hist"])
+        for sc in scheds:
+            jobs.append(("gen", h, sc, text if sc is None else gc_lines(text, ends, sc[0], sc[1])))
+    depths = [(600, 300)] if tier == "quick" else [(600, 300), (260, 250), (2000, 900)]
+    for (dd, d2) in depths:
+        text = DEEP_SESSION % {"d": dd, "d2": d2}
+        ends = list(range(1, len(text.split("\n"))))
+        for sc in scheds + [(4, 3), (7, 6)]:
+            jobs.append(("deep%d" % dd, None, sc, (text if sc is None else gc_lines(text, ends, sc[0], sc[1])) + "#quit\n"))
+
+    def do(job):
+        kind, h, sc, text = job
+        dd = os.path.join(wd, "loop-%d" % (abs(hash((kind, h and h["id"], sc))) % 10 ** 9))
+        os.makedirs(dd, exist_ok=True)
+        res = c13.run_loop(b, text, dd, prefix, timeout=300)
+        res["text"] = text
+        return res
+    with concurrent.futures.ThreadPoolExecutor(max_workers=vlib.NCPU) as ex:
+        results = list(ex.map(do, jobs))
+    ref = {}
+    nreq = 0
+    for (kind, h, sc, text), res in zip(jobs, results):
+        nreq += res["out"].count("Garbage collection...")
+        if kind == "gen":
+            chk.case(("loop", h["id"], sc), nontrivial=sc is not None and len(h["out"]) > 0)
+            v = c13.judge(h, res)
+            if v is not None:
+                chk.violation("%s in an interactive session with collections requested %s: program %s: %s"
+                              % (v[0], "never" if sc is None else "after every step i with i mod %d = %d" % sc, h["id"], v[1]),
+                              {"program_id": h["id"], "schedule": sc, "input": text, "stdout": res["out"][-4000:], "rc": res["rc"],
+                               "observed_projection": v[2], "specified_projection": v[3]},
+                              key={"kind": v[0], "route": "loop", "schedule": sc, "family": "gen"})
+            continue
+        # the fixed session: program lines only (the loop's own lines -- timings, the collector's report -- are not the program's)
+        proj = [l.strip() for l in res["out"].split("\n") if l.startswith(("deep-", "sum-", "keep "))]
+        fault = res["timeout"] or res["rc"] != 0 or "Program fault" in res["out"] or "Bug:" in res["out"]
+        chk.case(("loop", kind, sc), nontrivial=sc is not None)
+        if sc is None:
+            if fault or len(proj) != 5 or "(Error)" in res["out"]:
+                raise vlib.MachineryError("the fixed session %s does not run without collection requests: rc=%s %s"
+                                          % (kind, res["rc"], res["out"][-600:]))
+            ref[kind] = proj
+        elif fault or proj != ref[kind]:
+            chk.violation("fixed deep-recursion session %s with collections requested after every step i with i mod %d = %d: %s"
+                          % (kind, sc[0], sc[1], "the loop faulted or stopped (rc=%s)" % res["rc"] if fault else "program lines differ"),
+                          {"schedule": sc, "input": text, "stdout": res["out"][-4000:], "rc": res["rc"], "expected_lines": ref[kind],
+                           "got_lines": proj},
+                          key={"kind": "loop-fault" if fault else "wrong-output", "route": "loop", "schedule": sc, "family": kind})
+    if nreq == 0:
+        raise vlib.MachineryError("no collection request was honoured by the loop (`#int gc` not recognised?)")
+    chk.traces += len(jobs)
+    chk.extra["loop_sessions"] = {"generated_programs": len(hs), "fixed_sessions": len(depths), "runs": len(jobs),
+                                  "collections_performed_on_request": nreq,
+                                  "schedules": ["none" if s_ is None else "%d:%d" % s_ for s_ in scheds]}
+
+
 def run(chk, tier):
     b = vlib.vbuild()
     wd = vlib.scratch("c09")
+    loop_phase(chk, b, wd, tier)
     n = 40 if tier == "quick" else 250
     progs = []
     for i in range(n):
